@@ -61,6 +61,9 @@ func FuncName(fn string) Option {
 func FuncNameAndResult(fn, result string) Option {
 	return func(m *component_definition.Meta) bool {
 		if method := m.Value.MethodByName(fn); method.IsValid() {
+			if method.Type().NumIn() != 0 {
+				return false
+			}
 			if result == "*" {
 				return true
 			}
